@@ -134,6 +134,33 @@ def main():
         nt = (tuple(dts), policy, fc) if len(set(dts)) > 1 and not all(a["err"] for a in allowed) else None
         run.case(nt, sample=dict(time_step_classes=dts, policy=policy, fcmax=FCMAX[fc], rows=c["ires"]["rows"])
                  if nt and len(run.samples) < 3 and policy != "frequency_domain_resampling" else None)
+    # ---- "any count": long lists (the model's rows = kept recordings in input order does not depend on the count; the instances
+    #      above have at most 5 recordings, an implementation may batch) - 260 and 515 short windows, two time steps, each
+    #      inspected row against the recording processed alone --------------------------------------------------------------
+    for count, probe in ((260, (0, 1, 127, 128, 255, 256, 257, 259)), (515, (0, 255, 256, 511, 512, 513, 514))):
+        many = []
+        for i in range(count):
+            d = 1 if (i % 7) else 2
+            n = 96 + (i % 5)
+            t = np.arange(n) * DT[d]
+            mk = lambda: np.sin(2 * np.pi * (3 + i % 4) * t + i) + 0.5 * rng.normal(size=n)
+            many.append(h.SeismicRecording3C(h.TimeSeries(mk(), DT[d]), h.TimeSeries(mk(), DT[d]), h.TimeSeries(mk(), DT[d])))
+        for fam in (families if count == 260 else families[:1]):
+            st = settings(fam, "frequency_domain_resampling", 0)
+            with warnings.catch_warnings():
+                warnings.simplefilter("ignore")
+                rows = rows_of(h.process(many, st))
+            if len(rows) != count:
+                run.violation(f"pipeline:many:{fam}:count", f"{count} recordings give {len(rows)} curves", dict(kind="pipeline-many", family=fam, count=count))
+                continue
+            for i in probe:
+                with warnings.catch_warnings():
+                    warnings.simplefilter("ignore")
+                    alone_i = rows_of(h.process([many[i]], settings(fam, "frequency_domain_resampling", 0)))[0]
+                if not np.allclose(rows[i], alone_i, rtol=1e-12, atol=0):
+                    run.violation(f"pipeline:many:{fam}:row", f"{fam}: row {i} of {count} jointly processed recordings differs from that recording processed alone "
+                                  f"(max rel diff {np.max(np.abs(rows[i] - alone_i) / np.abs(alone_i)):.2e})", dict(kind="pipeline-many", family=fam, count=count, row=i))
+            run.case(("many", fam, count))
     return run.finish(
         rule="every arrangement of recordings over 3 time-step classes x 3 policies x 4 Nyquist classes of spec/Pipeline.tla (quick: all of "
              "length <= 3 and a seeded third of length 4), processed jointly under traditional / single-azimuth / RotDpp / azimuthal (and "
